@@ -159,3 +159,79 @@ lemma("conversion/reciprocal-twice", "C04", _fac, "1 / ((1 / (x * fu) / fv) * fv
 lemma("conversion/relative-uncertainty-kept", "C08",
       lambda b: dict(env=dict(x=b.real("x"), e=b.real("e"), fu=b.real("fu"), fv=b.real("fv"))),
       "(e * fu / fv) / (x * fu / fv) == e / x", assumes=["fu > 0 and fv > 0 and x != 0"], ns=globals())
+
+
+# ---- array magnitudes: element-wise, and the operand's array is not written to ---------------------------------------
+import numpy as _np
+
+ARRAY_PAIRS = [([("k", "m", 1, 1)], [("", "m", 1, 1)]), ([("", "in", 1, 1)], [("c", "m", 1, 1)]), ([("", "J", 1, 1)], [("", "erg", 1, 1)]),
+               ([("k", "m", 1, 1), ("", "h", -1, 1)], [("", "m", 1, 1), ("", "s", -1, 1)])]
+
+
+def _arr(bd, n=3):
+    xs = [bd.real(f"x{i}") for i in range(n)]
+    return xs, bd.call(bd.const(_np.array), bd.list(list(xs)))
+
+
+@spec
+def elems(a):
+    return [v for v in a]
+
+
+for meth in ("value", "to"):
+    @contract(f"{Q}.{meth}", ["C04", "C07"], name=f"Quantity.{meth}[array-magnitude]")
+    def _(c, meth=meth):
+        c.bound = "arrays of three elements (element values symbolic)"
+        for a, b in ARRAY_PAIRS:
+            ua, ub, fa, fb = _scen(a, b)
+
+            def pre(bd, ua=ua, ub=ub, fa=fa, fb=fb):
+                xs, arr = _arr(bd)
+                q = bd.new(Q, arr, ua)
+                return dict(args=[q, ub], env=dict(xs=xs, fa=fa, fb=fb, q=q, arr=arr))
+            c.scenario(f"{ua}->{ub}", pre)
+        if meth == "value":
+            c.ensures("all([close(r, x * fa / fb) for r, x in zip(elems(result), xs)]) and len(elems(result)) == len(xs)", "element-wise-x-times-factor-ratio")
+            c.ensures("elems(q.magnitude.value) == xs", "the-quantity-keeps-its-elements")
+        else:
+            c.ensures("all([close(r, x * fa / fb) for r, x in zip(elems(self.magnitude.value), xs)]) and len(elems(self.magnitude.value)) == len(xs)", "element-wise-x-times-factor-ratio")
+        c.ensures("elems(arr) == xs", "the-array-handed-in-is-not-written-to")
+        c.no_raise()
+
+
+@contract(f"{Q}.value", ["C04", "C07", "C08"], name="Quantity.value[array-magnitude-with-uncertainty]")
+def _(c):
+    c.bound = "arrays of three elements with one absolute uncertainty for all (element values and uncertainty symbolic)"
+    for a, b in ARRAY_PAIRS[:3]:
+        ua, ub, fa, fb = _scen(a, b)
+
+        def pre(bd, ua=ua, ub=ub, fa=fa, fb=fb):
+            xs, arr = _arr(bd)
+            e = bd.real("e")
+            q = bd.new(Q, arr, ua, abse=e)
+            return dict(args=[q, ub], env=dict(xs=xs, fa=fa, fb=fb, q=q, arr=arr, e=e))
+        c.scenario(f"{ua}->{ub}", pre)
+    c.requires("e >= 0")
+    c.ensures("all([close(r, x * fa / fb) for r, x in zip(elems(result), xs)])", "element-wise-x-times-factor-ratio")
+    c.ensures("elems(q.magnitude.value) == xs and elems(q.magnitude.error) == [e for x in xs]", "the-quantity-keeps-its-elements-and-uncertainties")
+    c.no_raise()
+
+
+@contract(f"{Q}.to", ["C04", "C08"], name="Quantity.to[array-magnitude-with-uncertainty]")
+def _(c):
+    c.bound = "arrays of three elements with one absolute uncertainty for all (element values and uncertainty symbolic)"
+    for a, b in ARRAY_PAIRS[:3]:
+        ua, ub, fa, fb = _scen(a, b)
+
+        def pre(bd, ua=ua, ub=ub, fa=fa, fb=fb):
+            xs, arr = _arr(bd)
+            e = bd.real("e")
+            q = bd.new(Q, arr, ua, abse=e)
+            other = bd.new(Q, arr, ua, abse=e)
+            return dict(args=[q, ub], env=dict(xs=xs, fa=fa, fb=fb, q=q, arr=arr, e=e, err0=bd.getattr(bd.getattr(q, "magnitude"), "error")))
+        c.scenario(f"{ua}->{ub}", pre)
+    c.requires("e >= 0")
+    c.ensures("all([close(r, x * fa / fb) for r, x in zip(elems(self.magnitude.value), xs)])", "element-wise-x-times-factor-ratio")
+    c.ensures("all([close(r, e * fa / fb) and r >= 0 for r in elems(self.magnitude.error)]) and len(elems(self.magnitude.error)) == len(xs)", "uncertainties-scale-like-the-values")
+    c.ensures("elems(err0) == [e for x in xs]", "the-uncertainty-array-held-before-is-not-written-to")
+    c.no_raise()
